@@ -2,4 +2,4 @@
 Require Extraction.
 Require Import ExtrOcamlBasic.
 From Verif Require Import Lib.Base Model.Streams.
-Extraction "model.ml" init_state run.
+Extraction "model.ml" init_state run run_many.
